@@ -623,6 +623,12 @@ def c08_jobs(tier):
     for op in OPS_ALIAS:
         js.append(ops_job(op, 'int', 2, 4, alias=1, ce=True))
         if tier != 'quick': js.append(ops_job(op, 'Tr', 2, 2, alias=1, ce=True))
+    # two-container operations under forced constant evaluation (contents, lifetimes, no unreleased allocation; capacity/inlined()/moved-from contents are not compared)
+    for op in ['copy_ctor', 'move_ctor', 'copy_assign', 'move_assign', 'swap', 'assign_copy', 'assign_move', 'append_copy', 'append_move']:
+        for (na, nb, ca, cb) in [(2, 2, 2, 4), (2, 2, 4, 2), (2, 3, 2, 5), (3, 2, 3, 3)]:
+            js.append(two_job(op, 'int', na, nb, ca, cb, ce=True, followup=0))
+    for op in ['move_assign', 'copy_assign', 'assign_move']:
+        js.append(two_job(op, 'Tr', 2, 2, 2, 4, ce=True)); js.append(two_job(op, 'Tr', 2, 2, 4, 2, ce=True, sizea=1))
     # the same configurations in the ordinary run-time build carry the C08 growth-capacity assertion too (both builds equal the same rule)
     for op in OPS_GROW:
         js.append(ops_job(op, 'int', 2, 4, std='c++20'))
@@ -633,7 +639,7 @@ REG['C08'] = Spec('C08', c08_jobs, tags=['C08', 'C01', 'C03'], memsafe=True, lev
     'The one-container harnesses are re-run on this forced build: sizes, element values, returned positions/references equal the same sequence model as the run-time build (hence equal to it), the capacity after growth equals the header\'s '
     'mode-independent growth rule applied to the same state and request in BOTH builds, the allocation ledger is empty at the end (no unreleased allocation) and the only live block after each operation is the container\'s buffer, '
     'and cbmc\'s pointer / bounds / lifetime checks plus the element-lifetime hooks stand in for "no UB / out-of-lifetime access". inlined(), moved-from contents and capacity after move/swap are not compared, as the property allows. '
-    'NOT decided: whether GCC\'s and Clang\'s constant evaluators accept the expressions (reinterpret_cast, construct_at, transient allocation, step limits) - a property of those evaluators, outside any solver over IR; two-container operations under forced constant evaluation are not covered.',
+    'NOT decided: whether GCC\'s and Clang\'s constant evaluators accept the expressions (reinterpret_cast, construct_at, transient allocation, step limits) - a property of those evaluators, outside any solver over IR; the compilers\' evaluators are not exercised.',
     assumptions=['forcing std::is_constant_evaluated() to true at run time represents the constant-evaluation code paths faithfully (same templates, same branches); the evaluators\' own acceptance rules are not modelled'],
     level_text='bounded symbolic checking of the constant-evaluation code paths forced at run time; the compilers\' constant evaluators themselves are outside the technique (partial claim)')
 
